@@ -19,7 +19,7 @@ import (
 
 func init() {
 	mc.Register(&mc.Check{ID: "C11", Category: "exploration",
-		Rule:   "Engine A over the honest generator's dimensions, every world verified at L0, L1 and L2: contents of free header/body/QE-report fields {pattern, zero, 0xFF}; QE auth-data length {32,0,1,31,33,64,255,256,65535}; extra bytes {0,1,16,1000}; NUL after the chain; platform SVN vectors (components at 0/127/128/255, PCESVN 0/255/256/65535); FMSPC with bytes >= 0x80 and upper-case hex in TCB Info; matching UpToDate level at listed position 0/1/2 behind non-matching levels of every status; TEE_TCB_SVN[1] zero / non-zero with its module identity; QE identity with other masks; CRLs with unrelated and near-miss serials; time sets at the window edges; trusted pool with extra roots. Plus the two genuine Intel samples under the embedded root. Non-trivial: >=1 deviation from the baseline honest world; distinct by decision vector",
+		Rule:   "Engine A over the honest generator's dimensions, every world verified at L0, L1 and L2: contents of free header/body/QE-report fields {pattern, zero, 0xFF}; QE auth-data length {32,0,1,31,33,64,255,256,65535}; extra bytes {0,1,16,1000}; NUL after the chain; platform SVN vectors (components at 0/127/128/255, PCESVN 0/255/256/65535); FMSPC with bytes >= 0x80 and upper-case hex in TCB Info; matching UpToDate level at listed position 0/1/2 behind non-matching levels of every status; TEE_TCB_SVN[1] zero / non-zero with its module identity; QE identity with other masks; CRLs with unrelated and near-miss serials; time sets at the window edges; trusted pool with extra roots. Plus the four verifier-converted raw signatures with r or s of every leading-byte shape (deterministic signer walked along its nonce sequence). Plus the two genuine Intel samples under the embedded root. Non-trivial: >=1 deviation from the baseline honest world; distinct by decision vector",
 		Assume: append([]string{"Processor-CA chains and upper-case PCE-ID hex are excluded: the property does not settle them"}, cryptoAssume...),
 		Run:    runC11})
 }
